@@ -99,9 +99,9 @@ func TestBoundedC19(t *testing.T) {
 		n = 5
 	}
 	r := &boundedReport{ID: "C19.tagname-injective", Prop: "C19", Exhaustive: true,
-		Rule: fmt.Sprintf("every first path segment over {_, %%, ., a, F, 2, \u00e9, space} up to length %d (paths \"/\"+seg): different automatic tag titles get different tag names (collisions found with a hash map); pathTagTitle(\"/\"+seg+\"/x\") == pathTagTitle(\"/\"+seg); non-trivial = segment containing _, %%, a non-ASCII letter or a space", n)}
+		Rule: fmt.Sprintf("every first path segment over {_, %%, ., a, F, 2, \u00e9, space, 5, E} (so that %%25 and %%2E are valid escapes of members of the alphabet) up to length %d (paths \"/\"+seg): different automatic tag titles get different tag names (collisions found with a hash map); pathTagTitle(\"/\"+seg+\"/x\") == pathTagTitle(\"/\"+seg); non-trivial = segment containing _, %%, a non-ASCII letter or a space", n)}
 	names := map[TagName]string{}
-	enumStrings([]string{"_", "%", ".", "a", "F", "2", "\u00e9", " "}, n, func(seg string) {
+	enumStrings([]string{"_", "%", ".", "a", "F", "2", "\u00e9", " ", "5", "E"}, n, func(seg string) {
 		r.Evals++
 		if strings.ContainsAny(seg, "_% \u00e9") {
 			r.Distinct++
